@@ -230,6 +230,13 @@ def body_isometry_to(case, ctx):
     same_point(ctx, "isometry_to: basepoint carried", img.point, P2, growth=g / C_of(P2))
     same_direction(ctx, "isometry_to: direction carried", geometric(img.vector, img.point),
                    U2, g)
+    # the image is a tangent vector in its own right: its own frame and its own geodesic (not
+    # those of the vector it was carried from, which has just been asked for its frame)
+    same_point(ctx, "origin_to() of the carried vector sends the origin to the new basepoint",
+               (img.origin_to() @ Point.get_origin(n, shape)).proj_data, P2, growth=g)
+    far = I.exp_map(P2, U2, 0.7)
+    same_point(ctx, "the carried vector walks the new geodesic: point_along(0.7)",
+               img.normalized().point_along(0.7).proj_data, far, growth=g * 2.0)
     # and the other way round with the inverse
     back = T.inv() @ tv2
     same_point(ctx, "isometry_to.inv(): basepoint carried back", back.point, P1,
@@ -317,6 +324,10 @@ def body_along(case, ctx):
     d = I.dist_h(P, Qh)
     tol = I.dist_tol(P, want, np.abs(t), eps=1e-12) + 1e-10 * Cq
     ctx.small("d(p, point_along(t)) = |t|", (d - np.abs(t)) / tol, 1.0, d=d, t=t)
+    # the same through the library's own distance (what a user would measure)
+    dl = np.asarray(Point(P.copy()).distance(q), dtype=float)
+    ctx.small("p.distance(point_along(t)) = |t|", (dl - np.abs(t)) / (tol + 1e-9 * Cq * Cq), 1.0,
+              d=dl, t=t)
     # (b) on the side of the geodesic given by the sign of t: <q, u> = sinh t
     side = mink(Qh, U)
     ctx.small("<q,u> = sinh t (side of the basepoint)",
@@ -632,6 +643,25 @@ def body_formula(case, ctx):
     ctx.small("radius(interior_angle(r)) = r",
               (back_r - r) / (1e-9 * math.cosh(r) ** 2 / max(math.sinh(r), 1e-2)), 1.0,
               back=back_r, r=r)
+    # tables of angles / radii (ndarrays, 0-d arrays): same values entry by entry, and the
+    # caller's table is left as it was
+    for arr in (np.array([a, 0.5 * a, a]), np.array(a)):
+        keep = arr.copy()
+        rr = np.asarray(hyperbolic.regular_polygon_radius(n, arr), dtype=float)
+        ctx.check(np.array_equal(arr, keep), "regular_polygon_radius leaves the caller's angle "
+                  "array untouched", before=keep, after=arr)
+        ctx.close("regular_polygon_radius on an array = entry by entry", rr.reshape(-1)[0], r_lib,
+                  rtol=1e-12, atol=0)
+        back = np.asarray(hyperbolic.polygon_interior_angle(n, rr), dtype=float)
+        ctx.small("interior_angle(radius(angles)) = angles for a table of angles",
+                  (back - keep) / (1e-9 * C), 1.0)
+    for arr in (np.array([r, 0.5 * r + 0.05]), np.array(r)):
+        keep = arr.copy()
+        aa = np.asarray(hyperbolic.polygon_interior_angle(n, arr), dtype=float)
+        ctx.check(np.array_equal(arr, keep), "polygon_interior_angle leaves the caller's radius "
+                  "array untouched", before=keep, after=arr)
+        ctx.close("polygon_interior_angle on an array = entry by entry", aa.reshape(-1)[0], a_lib,
+                  rtol=1e-12, atol=0)
     t = float(case["t"])
     ctx.small("hyp_to_affine_dist(t) = tanh t", (float(hyperbolic.hyp_to_affine_dist(t)) -
                                                   math.tanh(t)) / 1e-12, 1.0, t=t)
@@ -640,6 +670,21 @@ def body_formula(case, ctx):
     want = math.acosh(1.0 / math.tan(math.pi / (4 * g)) ** 2)
     ctx.small("genus_g_surface_radius: 4g-gon with angle 2 pi / 4g", (rg - want) / 1e-9, 1.0,
               got=rg, want=want)
+    # the regular polygon built on that radius: the fundamental 4g-gon of a genus-g surface
+    # (angle sum 2 pi), through the constructor that goes with the formula
+    if g <= 6:
+        poly = Polygon.regular_surface_polygon(g)
+        V = np.asarray(poly.get_vertices().proj_data, dtype=float)
+        ctx.check(V.shape == (4 * g, 3), "regular_surface_polygon(g) has 4g vertices in H^2",
+                  got=V.shape)
+        Vh = I.to_hyperboloid(V)
+        o = np.array([1.0, 0.0, 0.0])
+        Cg = math.cosh(want)
+        ctx.small("regular_surface_polygon: vertices at the genus-g radius",
+                  (I.dist_h(Vh, o) - want) / (1e-9 * Cg * Cg / math.sinh(want)), 1.0)
+        ang = I.angle_between(Vh, np.roll(Vh, 1, axis=0), np.roll(Vh, -1, axis=0))
+        ctx.small("regular_surface_polygon: interior angles 2 pi / 4g (angle sum 2 pi)",
+                  (ang - math.pi / (2 * g)) / (1e-8 * Cg ** 4), 1.0, ang=ang)
 
 
 # ------------------------------------------ 9. timelike_to / spacelike_to (docstrings)
